@@ -345,8 +345,14 @@ func execHist(c *drv.Ctx, d M) bool {
 				}
 				ret = append(ret, middleware.SecurityScopesFrom(r2)...)
 			}
-		case "BindAndValidate":
-			bound, r2, err := b.ctx.BindAndValidate(req, route)
+		case "BindAndValidate", "BindAndValidateFresh":
+			rt := route
+			if name == "BindAndValidateFresh" {
+				if fresh, found := b.ctx.LookupRoute(req); found {
+					rt = fresh
+				}
+			}
+			bound, r2, err := b.ctx.BindAndValidate(req, rt)
 			next = r2
 			if err != nil {
 				ret = []string{"invalid"}
